@@ -37,17 +37,24 @@ class SymDecimal:
             if sign:
                 n = -n
             if exp >= 0:
-                return SymDecimal(z3.IntVal(n * 10 ** exp), 0)
-            return SymDecimal(z3.IntVal(n), -exp)
+                return SymDecimal(n * 10 ** exp, 0)
+            return SymDecimal(n, -exp)
         if isinstance(x, bool):
             x = int(x)
         if isinstance(x, int):
-            return SymDecimal(z3.IntVal(x), 0)
+            return SymDecimal(x, 0)
         if isinstance(x, SymInt):
-            if x.bv:
-                raise E.Unsupported('Decimal of bit-vector int')
             return SymDecimal(x.term, 0)
         return None
+
+    @staticmethod
+    def _lift(n, like):
+        """python int -> constant of the sort of `like` (z3 Int or 64-bit bit-vector)"""
+        if not isinstance(n, int):
+            return n
+        if isinstance(like, int):
+            return z3.IntVal(n)
+        return z3.BitVecVal(n, 64) if z3.is_bv(like) else z3.IntVal(n)
 
     def _align(self, o):
         o = SymDecimal.of(o)
@@ -56,6 +63,7 @@ class SymDecimal:
         s = max(self.scale, o.scale)
         a = self.num * (10 ** (s - self.scale)) if s != self.scale else self.num
         b = o.num * (10 ** (s - o.scale)) if s != o.scale else o.num
+        a, b = SymDecimal._lift(a, b), SymDecimal._lift(b, a)
         return a, b, s
 
     def _cmp(self, o, f):
@@ -83,16 +91,21 @@ class SymDecimal:
         raise E.Unsupported('hash of symbolic Decimal')
 
     def __bool__(self):
-        return bool(mkbool(z3.simplify(self.num != 0)))
+        return bool(mkbool(z3.simplify(SymDecimal._lift(self.num, 0) != 0)))
 
     def __neg__(self):
         return SymDecimal(-self.num, self.scale)
+
+    @property
+    def term(self):
+        return SymDecimal._lift(self.num, 0)
 
     def __pos__(self):
         return self
 
     def __abs__(self):
-        return SymDecimal(z3.If(self.num >= 0, self.num, -self.num), self.scale)
+        n = SymDecimal._lift(self.num, 0)
+        return SymDecimal(z3.If(n >= 0, n, -n), self.scale)
 
     def __add__(self, o):
         al = self._align(o)
@@ -117,29 +130,34 @@ class SymDecimal:
         o = SymDecimal.of(o)
         if o is None:
             return NotImplemented
-        return SymDecimal(self.num * o.num, self.scale + o.scale)
+        a, b = SymDecimal._lift(self.num, o.num), SymDecimal._lift(o.num, self.num)
+        return SymDecimal(a * b, self.scale + o.scale)
     __rmul__ = __mul__
 
     def _sx_float(self):
         """float(Decimal) is correctly rounded"""
         eng = E.cur()
+        if isinstance(self.num, int):
+            import decimal as _dd
+            return float(_dd.Decimal(self.num).scaleb(-self.scale))
         if eng.float_mode == 'F':
-            num = z3.fpSignedToFP(z3.RNE(), z3.Int2BV(self.num, 64), z3.Float64())
+            num = z3.fpSignedToFP(z3.RNE(), self.num if z3.is_bv(self.num) else z3.Int2BV(self.num, 64), z3.Float64())
             return SymFloat(z3.fpDiv(z3.RNE(), num, fpval(10.0 ** self.scale)) if self.scale else num)
         exact = z3.ToReal(self.num) / (10 ** self.scale) if self.scale else z3.ToReal(self.num)
         return SymFloat(floatmodel.rnd(exact))
 
     def _sx_int(self):
-        q = SymInt(self.num)
+        n = SymDecimal._lift(self.num, 0)
         p = 10 ** self.scale
-        # truncation toward zero
-        return SymInt(z3.If(self.num >= 0, self.num / p, -((-self.num) / p)))
+        if z3.is_bv(n):
+            return SymInt(n / z3.BitVecVal(p, 64))      # bvsdiv truncates toward zero
+        return SymInt(z3.If(n >= 0, n / p, -((-n) / p)))
 
     def __float__(self):
         raise E.Unsupported('float() of symbolic Decimal reached C code')
 
     def __repr__(self):
-        return 'SymDecimal(%s e-%d)' % (z3.simplify(self.num), self.scale)
+        return 'SymDecimal(%s e-%d)' % (self.num if isinstance(self.num, int) else z3.simplify(self.num), self.scale)
 
     def __str__(self):
         raise E.Unsupported('str of symbolic Decimal')
